@@ -103,6 +103,34 @@ def cmp_lists(name, got, want, tol):
     return fail is None, fail, worst, bit
 
 
+_SG = {}
+
+
+def scat_true_gain(cell):
+    """gain of the scattering layer = composed gains of its linear DTCWT stages (largest absolute row
+    sums extracted from impulse executions of DTCWTForward with the same filters), times sqrt(2) per
+    magnitude (|re| + |im| <= sqrt(2) |z|).  None for the band-pass family (no DTCWTForward equivalent)."""
+    if cell['biort'] == 'near_sym_b_bp':
+        return None
+    order = 1 if cell['kind'] == 'scat1' else 2
+    H, W = cell['shape']
+    m = 2 if order == 1 else 8
+    He, We = -(-H // m) * m, -(-W // m) * m
+    key = (cell['biort'], cell['qshift'], He, We, order)
+    if key not in _SG:
+        try:
+            g1 = adapters.Adapter({'kind': 'dtf', 'biort': cell['biort'], 'qshift': cell['qshift'], 'J': 1, 'shape': [He, We]}).true_gain(cap=2000)
+            if order == 1:
+                _SG[key] = None if g1 is None else 2 ** 0.5 * g1
+            else:
+                g2 = adapters.Adapter({'kind': 'dtf', 'biort': cell['biort'], 'qshift': cell['qshift'], 'J': 2, 'shape': [He, We]}).true_gain(cap=2000)
+                g1b = adapters.Adapter({'kind': 'dtf', 'biort': cell['biort'], 'qshift': cell['qshift'], 'J': 1, 'shape': [He // 2, We // 2]}).true_gain(cap=2000)
+                _SG[key] = None if None in (g1, g2, g1b) else 2.0 * max(g1, g2) * g1b
+        except Exception:
+            _SG[key] = None
+    return _SG[key]
+
+
 def run_cell(cell, seed):
     import torch
     out = []
@@ -123,6 +151,10 @@ def run_cell(cell, seed):
     tg = A64.true_gain()
     if tg is not None and tg > 0:
         G = min(G, max(tg, 1e-3))      # the operator's own largest absolute row sum, extracted in this run
+    if cell['kind'] in ('scat1', 'scat2'):
+        sg = scat_true_gain(cell)
+        if sg:
+            G = min(G, sg)
     e32 = util.EPS32
     ok64, y64 = util.call_lib(A64.apply, xs64)
     ok32, y32 = util.call_lib(A32.apply, xs32)
@@ -162,6 +194,21 @@ def run_cell(cell, seed):
             out.append(res(HELD, case, 'M-F32', ratio=ratio) if okc else res(VIOLATED, case, 'M-F32', d, ratio=ratio))
         elif ok_a != ok_b:
             out.append(res(VIOLATED, case, 'M-F32', 'one precision raised on a low-amplitude input'))
+    # an oriented image-amplitude texture (diagonal stripes 128 +- 100): the worst case for cancellation in
+    # any reformulated magnitude; run for every scattering cell whatever its own input class
+    if cell['kind'] in ('scat1', 'scat2') and cell['input'] != 'stripes':
+        case = dict(base, check='f32 vs f64, stripes texture')
+        xt64 = A64.rand_args(N, C, seed, 'stripes', f64)
+        xt32 = [x.float() for x in xt64]
+        xt64 = [x.double() for x in xt32]
+        ok_a, ya = util.call_lib(A64.apply, xt64)
+        ok_b, yb = util.call_lib(A32.apply, xt32)
+        if ok_a and ok_b:
+            mxt = max(float(x.abs().max()) for x in xt64)
+            okc, d, ratio, _ = cmp_lists('float32 vs float64', [t.double() for t in yb], ya, 64 * e32 * (G * mxt + b))
+            out.append(res(HELD, case, 'M-F32', ratio=ratio) if okc else res(VIOLATED, case, 'M-F32', d, ratio=ratio))
+        elif ok_a != ok_b:
+            out.append(res(VIOLATED, case, 'M-F32', 'one precision raised on the stripes texture'))
     # converted modules
     case = dict(base, check='.float() of f64-built vs f32-built')
     ok, yc = util.call_lib(A64f.apply, xs32)
